@@ -311,7 +311,9 @@ class SimPool:
         if nodes is None:
             import p_tqdm.p_tqdm as pt
             nodes = pt.cpu_count()
-        self.nodes = max(1, int(nodes))
+        if int(nodes) < 1:
+            raise ValueError("Number of processes must be at least 1")      # what multiprocess.Pool(0) says
+        self.nodes = int(nodes)
         self.state = st
         self.workers = {}
         st.round += 1
